@@ -155,17 +155,17 @@ func (h *recHandler) StopWithError(err error) {
 	}
 	h.cancel()
 }
-func (h *recHandler) CloseErrorChan()                                  {}
-func (h *recHandler) Send(message simplefixgo.SendingMessage) error    { return nil }
-func (h *recHandler) SendBatch(m []simplefixgo.SendingMessage) error   { return nil }
-func (h *recHandler) SendRaw(data []byte) error                        { h.out <- data; return nil }
-func (h *recHandler) Context() context.Context                         { return h.ctx }
-func (h *recHandler) Stop()                                            { h.cancel() }
-func (h *recHandler) RemoveIncomingHandler(string, int64) error        { return nil }
-func (h *recHandler) RemoveOutgoingHandler(string, int64) error        { return nil }
-func (h *recHandler) OnDisconnect(utils.EventHandlerFunc)              {}
-func (h *recHandler) OnConnect(utils.EventHandlerFunc)                 {}
-func (h *recHandler) OnStopped(utils.EventHandlerFunc)                 {}
+func (h *recHandler) CloseErrorChan()                                              {}
+func (h *recHandler) Send(message simplefixgo.SendingMessage) error                { return nil }
+func (h *recHandler) SendBatch(m []simplefixgo.SendingMessage) error               { return nil }
+func (h *recHandler) SendRaw(data []byte) error                                    { h.out <- data; return nil }
+func (h *recHandler) Context() context.Context                                     { return h.ctx }
+func (h *recHandler) Stop()                                                        { h.cancel() }
+func (h *recHandler) RemoveIncomingHandler(string, int64) error                    { return nil }
+func (h *recHandler) RemoveOutgoingHandler(string, int64) error                    { return nil }
+func (h *recHandler) OnDisconnect(utils.EventHandlerFunc)                          {}
+func (h *recHandler) OnConnect(utils.EventHandlerFunc)                             {}
+func (h *recHandler) OnStopped(utils.EventHandlerFunc)                             {}
 func (h *recHandler) HandleIncoming(string, simplefixgo.IncomingHandlerFunc) int64 { return 0 }
 func (h *recHandler) HandleOutgoing(string, simplefixgo.OutgoingHandlerFunc) int64 { return 0 }
 
@@ -457,6 +457,73 @@ func runAcceptor(id int, r *rng.R, kind int, nconn int, outBuf int) int {
 	return nconn
 }
 
+// runDefaultHandler puts the library's own DefaultHandler behind the connection: the messages of a
+// coalesced burst must all reach the application's incoming handler, once each, byte-identical and
+// in order, also when that handler is slower than the arrival (back-pressure, not loss), for
+// handler/connection buffers of 0, 1 and 4.
+func runDefaultHandler(id int, r *rng.R, role string, bufSize int) {
+	n := r.Range(8, 40)
+	var msgs [][]byte
+	var stream []byte
+	for k := 1; k <= n; k++ {
+		m := genMessage(r, 0, k)
+		msgs = append(msgs, m)
+		stream = append(stream, m...)
+	}
+	chunks := partition(r, stream, 0) // one read: the messages arrive together
+	sc := newScriptConn(chunks, nil)
+	var mu sync.Mutex
+	var got [][]byte
+	slow := time.Duration(r.Range(200, 1500)) * time.Microsecond
+	reg := func(h *simplefixgo.DefaultHandler) {
+		h.HandleIncoming(simplefixgo.AllMsgTypes, func(m []byte) bool {
+			time.Sleep(slow)
+			mu.Lock()
+			got = append(got, append([]byte{}, m...))
+			mu.Unlock()
+			return true
+		})
+	}
+	var stop func()
+	if role == "initiator" {
+		h := simplefixgo.NewInitiatorHandler(context.Background(), "35", bufSize)
+		reg(h)
+		ini := simplefixgo.NewInitiator(sc, h, bufSize, time.Minute)
+		go func() { _ = ini.Serve() }()
+		stop = func() { ini.Close(); h.Stop() }
+	} else {
+		l := &scriptListener{conns: make(chan net.Conn, 1), closed: make(chan struct{})}
+		acc := simplefixgo.NewAcceptor(l, simplefixgo.NewAcceptorHandlerFactory("35", bufSize), time.Minute, func(h simplefixgo.AcceptorHandler) {
+			reg(h.(*simplefixgo.DefaultHandler))
+		})
+		go func() { _ = acc.ListenAndServe() }()
+		l.conns <- sc
+		stop = func() { acc.Close(); l.Close() }
+	}
+	waitFor(func() bool { mu.Lock(); defer mu.Unlock(); return len(got) >= n }, time.Duration(n)*slow+3*time.Second)
+	time.Sleep(3 * time.Millisecond)
+	mu.Lock()
+	delivered := append([][]byte{}, got...)
+	mu.Unlock()
+	stop()
+	rec := &Rec{ID: id, Mode: "stream-default-handler", Case: fmt.Sprintf("%s burst of %d messages, handler delay %s, buffers %d", role, n, slow, bufSize),
+		Oracle: map[string]string{}, Tags: []string{"default-handler", role, fmt.Sprintf("buf=%d", bufSize)}, Size: len(stream), Skip: true}
+	rec.Impl = fmt.Sprintf("delivered=%d", len(delivered))
+	verdict := "ok"
+	if len(delivered) != n {
+		verdict = fmt.Sprintf("fail: %d messages delivered to the incoming handler, %d sent", len(delivered), n)
+	} else {
+		for i := range msgs {
+			if string(delivered[i]) != string(msgs[i]) {
+				verdict = fmt.Sprintf("fail: delivery %d is not message %d as sent", i+1, i+1)
+				break
+			}
+		}
+	}
+	rec.Oracle["C04"] = verdict
+	emit(rec)
+}
+
 func main() {
 	seed := flag.Uint64("seed", 1, "seed")
 	n := flag.Int("n", 100, "number of cases")
@@ -478,6 +545,11 @@ func main() {
 	for i := 0; id < *n; i++ {
 		r := root.Fork()
 		kind := i % 4
+		if i%25 == 7 {
+			runDefaultHandler(id, r, []string{"initiator", "acceptor"}[(i/25)%2], []int{0, 1, 4}[(i/50)%3])
+			id++
+			continue
+		}
 		if i%5 == 0 {
 			id += runAcceptor(id, r, kind, r.Range(1, 8), []int{0, 1, 10}[r.Intn(3)])
 		} else {
